@@ -237,10 +237,14 @@ def run_case(spec):
         if extra:
             w.update(extra)
         return w
-    if not app.closed and info.get("peer_paused") and info.get("bulk_written") and info.get("unsent_at_close") and info.get("manager_state") == "CONNECTED":
+    c_now = getattr(mgr, "_connection", None) if mgr is not None else None
+    unsent_now = len(getattr(getattr(c_now, "transport", None), "outbuf", b""))
+    if not app.closed and info.get("peer_paused") and info.get("bulk_written") and unsent_now and dp.mstate(who) == "STOPPING":
+        # one mechanism, keyed on its own: the Manager is STOPPING and waits for loseConnection() to flush data into a
+        # peer whose application does not read (whether the connection was up at close() or came up just before the stop)
         viol.append({"key": "C17/close-never-completes/unsent-data-and-peer-application-paused-reading",
-                     "msg": "%s: close() while CONNECTED with %d bytes still unsent and the peer's application not reading did not complete within 300 virtual s (Manager now %s)" % (
-                         who, info["unsent_at_close"], dp.mstate(who)), "witness": wit()})
+                     "msg": "%s: close() with the Manager %s; 300 virtual s later it is STOPPING with %d bytes still unsent and the peer's application not reading" % (
+                         who, info.get("manager_state"), unsent_now), "witness": wit()})
     elif not app.closed:
         viol.append({"key": "C17/close-never-completes/manager=%s,connector=%s" % (info.get("manager_state"), info.get("connector_state")),
                      "msg": "%s: close() issued with Manager %s / Connector %s did not complete within 300 virtual s (Manager now %s)" % (
